@@ -116,6 +116,24 @@ def run(ctx):
                          f"the {level}-level validator has no rejecting branch for the fault class '{cell}': such a message is accepted", loc(repo.func(VALIDATE if level == "message" else GROUP)),
                          sample={"rule": R2, "cell": cell, "level": level, "present": bool(ok)})
     ctx.extra["check_matrix"] = {k: {"message": v[0], "group_item": v[1]} for k, v in matrix.items()}
+    # the value check is not optional: every way through the 'plain field' branch back to the loop passes validate_value
+    for q, g, calls in ((VALIDATE, gv, cv_val), (GROUP, gg, cg_val)):
+        call_nodes = {n.id for n, c, fs in calls}
+        heads = [n.id for n in g.nodes if n.kind == "for"]
+        bad = None
+        for t in g.nodes:
+            if t.kind == "test" and re.fullmatch(r"isinstance\(\w+, SchemaField\)", unparse(t.ast)):
+                for d, lab in g.succs(t.id, exc=False):
+                    if lab != "true":
+                        continue
+                    for h in heads:
+                        w = g.witness_path(d, [h], avoid=call_nodes, exc=False) if d not in call_nodes else None
+                        if d == h:
+                            w = [d]
+                        bad = bad or w
+        ctx.instance(R2, f"{q}[value check on every path of the field branch]", bad is None and bool(call_nodes),
+                     f"a path through the plain-field branch of {q} reaches the next tag without calling validate_value: some field values are accepted unchecked "
+                     "(e.g. a cache of earlier verdicts that ignores per-tag special cases)", loc(repo.func(q)), g.describe(bad or [])[-6:])
     # the order bookkeeping that makes the order / first-member cells meaningful
     gfn = repo.func(GROUP)
     upd = [n for n in gg.nodes if n.kind == "stmt" and isinstance(n.ast, ast.Assign) and unparse(n.ast.targets[0]) == "prev_tag" and unparse(n.ast.value) == "ord_idx"]
